@@ -652,6 +652,26 @@ func (w *world) checkPresent(v *vctx, acc *accepted, rng *rand.Rand, full bool) 
 		}
 	}
 
+	// What is stored under the key (ac.v2 holds the serialised message as is)
+	// must itself parse, validate and equal the upload.
+	if files := w.acFiles(v.key); len(files) == 1 {
+		r.Eval()
+		b, err := os.ReadFile(filepath.Join(w.srv.Dir, "ac.v2", v.key[:2], files[0]))
+		m := &pb.ActionResult{}
+		switch {
+		case err != nil:
+			r.Count("disk-view.unreadable")
+		case proto.Unmarshal(b, m) != nil:
+			r.Violation("C11:disk:stored-entry-does-not-parse:uploaded-via-"+acc.enc.String(), "the file stored under the action key is not an ActionResult", v.detail(map[string]any{"file": files[0]}))
+		case wellFormed(m) != "":
+			r.Violation("C11:disk:stored-entry-ill-formed:uploaded-via-"+acc.enc.String(), "the stored entry is ill formed: "+wellFormed(m), v.detail(map[string]any{"file": files[0]}))
+		default:
+			w.judgeHit(v, acc, "disk", m, nil, "file "+files[0])
+		}
+	} else {
+		r.Count(fmt.Sprintf("disk-view.files-%d", len(files)))
+	}
+
 	// HTTP HEAD
 	h := w.srv.HTTPHead("/ac/" + v.key)
 	r.Eval()
@@ -717,11 +737,8 @@ func (w *world) checkPresent(v *vctx, acc *accepted, rng *rand.Rand, full bool) 
 	reqs = append(reqs, inlineReq{rng.IntN(2) == 0, rng.IntN(2) == 0, "some"}, inlineReq{rng.IntN(2) == 0, rng.IntN(2) == 0, "some"})
 	switch {
 	case info.big:
-		// large messages: everything requested, nothing requested, and three more
-		rest := append([]inlineReq(nil), reqs[1:7]...)
-		rest = append(rest, reqs[8:]...)
-		rng.Shuffle(len(rest), func(i, j int) { rest[i], rest[j] = rest[j], rest[i] })
-		reqs = append([]inlineReq{reqs[7], reqs[0]}, rest[:3]...)
+		// large messages: everything / nothing requested, the three pairs, one random subset
+		reqs = []inlineReq{{true, true, "all"}, {false, false, "none"}, {true, false, "all"}, {false, true, "all"}, {true, true, "none"}, reqs[8]}
 	case !full:
 		rng.Shuffle(len(reqs), func(i, j int) { reqs[i], reqs[j] = reqs[j], reqs[i] })
 		reqs = reqs[:2]
@@ -821,7 +838,6 @@ func (w *world) runSeq(c *seqCase) {
 	r := w.r
 	v := &vctx{caseID: c.id, key: c.key}
 	var cur *accepted
-	everAccepted := false
 	for i, st := range c.steps {
 		info := st.info
 		kind := "well-formed"
@@ -886,7 +902,6 @@ func (w *world) runSeq(c *seqCase) {
 		}
 		if out.accepted {
 			cur = &accepted{info: info, ref: wr.ref, enc: st.enc, casOK: map[string]bool{}}
-			everAccepted = true
 		}
 		last := i == len(c.steps)-1
 		if cur == nil {
@@ -901,7 +916,6 @@ func (w *world) runSeq(c *seqCase) {
 			w.checkPresent(v, cur, c.rng, last || c.rng.IntN(3) == 0)
 		}
 	}
-	_ = everAccepted
 }
 
 // ---------------------------------------------------------------------------
@@ -991,7 +1005,6 @@ func (w *world) runRaw(c *rawCase) {
 	r := w.r
 	v := &vctx{caseID: c.id, key: c.key}
 	var cur []byte
-	have := false
 	for i, st := range c.steps {
 		hdr := map[string]string{}
 		body := st.data
@@ -1027,7 +1040,7 @@ func (w *world) runRaw(c *rawCase) {
 			r.Violation("C11:raw:"+enc+":put-refused", fmt.Sprintf("validation disabled: PUT of %d arbitrary bytes (%s) answered %d %s", len(st.data), st.kind, p.Status, trunc(string(p.Body), 100)), v.detail(nil))
 			return
 		}
-		cur, have = st.data, true
+		cur = st.data
 		hdrG := map[string]string{}
 		if c.rng.IntN(2) == 0 {
 			hdrG["Accept"] = "application/json"
@@ -1059,7 +1072,6 @@ func (w *world) runRaw(c *rawCase) {
 			r.Count("raw.head.ok")
 		}
 	}
-	_ = have
 }
 
 // ---------------------------------------------------------------------------
